@@ -2826,7 +2826,9 @@ class C11(Check):
         text="Frame argument in Lean (Model/Frame.lean, Props/C11.lean) over slot tables regenerated from the current source on every "
         "run (Gen/FrameC11.lean: what control actions and the simulator code paths can assign, what to_dict reads, what "
         "reset_initial_values re-assigns): a run is any sequence of writes inside `written`, so to_dict is invariant when "
-        "written and toDictReads are disjoint, and run/reset/run reproduces when every written slot is re-assigned or run-initialised. The full statements are "
+        "written and toDictReads are disjoint, and run/reset/run reproduces when every written slot is re-assigned or run-initialised. EpanetSimulator's write-set on the "
+        "model is extracted separately (Gen.writtenByEpanet = {Rule._name, WaterNetworkModel._inpfile}: epanet_write_set, epanet_run_preserves_definition for every write "
+        "sequence, no exclusion). The full statements for WNTRSimulator are "
         "FALSE of the code (run_preserves_definition_counterexample, reset_restores_initial_counterexample: a base_speed control action writes a slot to_dict reads "
         "and reset does not restore); the theorems proved for every write sequence are the _partial ones excluding exactly the slots `definition_overlap` / "
         "`reset_missing_that_matters` decide on the regenerated tables (run_preserves_definition_partial, reset_restores_initial_partial, rerun_deterministic_partial). "
@@ -2835,8 +2837,9 @@ class C11(Check):
         "deepcopy and JSON-reloaded models, and every attribute write observed at run time must be inside the generated `written` table.",
         design_ref="DESIGN.md §5 C11",
         note="the completeness of the generated tables (every assignment a run performs is in `written`) is CHECKED by the run-time write "
-        "trace on every generated model, not proved; `assumedIgnorable` (Control/Rule._condition._backtrack, Control/Rule._which, "
-        "HeadPump._curve_coeffs/_coeffs_curve_points, WaterNetworkModel._inpfile, Rule._name, Reservoir._leak_status: written, not reset) is a "
+        "trace on every generated model, not proved; `checkedIgnorable` (Control/Rule._which, HeadPump._curve_coeffs/_coeffs_curve_points) is shown by the translator (Gen.notReadBeforeWrite: never read / "
+        "write-dominates-read protocol / key-guarded memo, evidence in the generated comment lines); `assumedIgnorable` (Control/Rule._condition._backtrack, "
+        "WaterNetworkModel._inpfile, Rule._name, Reservoir._leak_status: written, not reset, not shown unread) is a "
         "hypothesis of the Lean theorems that only the rerun oracle checks. Modelled, not verified: the numerical solver (equal stores give "
         "equal results is an assumption of the frame theorem; reruns agree to ~1e-13, compared at 1e-9 relative because evaluator.cpp orders "
         "unknowns by heap address); registries / OrderedSets mutated in place (observer lists) are not slots; tables are class-level "
